@@ -359,6 +359,13 @@ func (h *headerSnapshotRW) WriteHeader(s int) {
 		h.atFirst = h.hdr.Clone()
 	}
 }
+
+// Flush: like net/http's response writer, flushing commits the headers
+func (h *headerSnapshotRW) Flush() {
+	if h.status == 0 {
+		h.WriteHeader(200)
+	}
+}
 func (h *headerSnapshotRW) Write(p []byte) (int, error) {
 	if h.status == 0 {
 		h.WriteHeader(200) // what net/http does implicitly
@@ -370,6 +377,7 @@ type c12HTTPCase struct {
 	target          string
 	contentType     string // "" = not set
 	setLength       bool
+	flushFirst      bool // the handler flushes (if the writer it got can) before its first Write
 	callWriteHeader bool
 	chunks          int
 	mw              string // "ResponseWriter" | "Middleware" | "MiddlewareWithError"
@@ -377,7 +385,7 @@ type c12HTTPCase struct {
 }
 
 func (c c12HTTPCase) String() string {
-	return fmt.Sprintf("%s target=%q content-type=%q content-length=%v writeheader=%v chunks=%d input=%s", c.mw, c.target, c.contentType, c.setLength, c.callWriteHeader, c.chunks, c.in.name)
+	return fmt.Sprintf("%s target=%q content-type=%q content-length=%v writeheader=%v flush=%v chunks=%d input=%s", c.mw, c.target, c.contentType, c.setLength, c.callWriteHeader, c.flushFirst, c.chunks, c.in.name)
 }
 
 // expected media type per the documented rule: Content-Type, else extension of the request path
@@ -416,6 +424,9 @@ func c12RunHTTP(m *minify.M, c c12HTTPCase) string {
 		}
 		if c.callWriteHeader {
 			w.WriteHeader(200)
+		}
+		if f, ok := w.(http.Flusher); ok && c.flushFirst {
+			f.Flush()
 		}
 		n := c.chunks
 		if n < 1 {
@@ -626,8 +637,8 @@ func C12(run *core.Run) {
 		for _, mw := range []string{"ResponseWriter", "Middleware", "MiddlewareWithError"} {
 			for _, target := range []string{"/f" + ext, "/f", "/dir.d/f" + ext + "?v=1.2", "/f" + ext + "?x=a.png", "/f.bin", "/"} {
 				for _, ct := range []string{"", in.mt, in.mt + "; charset=utf-8", "application/octet-stream"} {
-					for flags := 0; flags < 4; flags++ {
-						c := c12HTTPCase{target: target, contentType: ct, setLength: flags&1 != 0, callWriteHeader: flags&2 != 0, chunks: 1 + (flags+len(target))%3, mw: mw, in: in}
+					for flags := 0; flags < 8; flags++ {
+						c := c12HTTPCase{target: target, contentType: ct, setLength: flags&1 != 0, callWriteHeader: flags&2 != 0, flushFirst: flags&4 != 0, chunks: 1 + (flags+len(target))%3, mw: mw, in: in}
 						run.Eval()
 						httpCases++
 						if s := c12RunHTTP(m, c); s != "" {
@@ -683,6 +694,42 @@ func C12(run *core.Run) {
 				} else {
 					run.NonTrivial([]byte(ct + entry + body))
 				}
+			}
+		}
+	}
+	// 4f. inputs that start with a byte order mark: whatever an entry point does with it, all of them do the same
+	for _, in := range shorts {
+		if len(in.data) == 0 {
+			continue
+		}
+		body := append([]byte("\xef\xbb\xbf"), in.data...)
+		run.Eval()
+		var ref bytes.Buffer
+		rerr := m.Minify(in.mt, &ref, bytes.NewReader(body))
+		for _, entry := range []string{"reader", "writer", "bytes", "string"} {
+			var got []byte
+			var gerr error
+			switch entry {
+			case "reader":
+				got, gerr = io.ReadAll(m.Reader(in.mt, bytes.NewReader(body)))
+			case "writer":
+				var b bytes.Buffer
+				w := m.Writer(in.mt, &b)
+				w.Write(body)
+				gerr = w.Close()
+				got = b.Bytes()
+			case "bytes":
+				got, gerr = m.Bytes(in.mt, append([]byte{}, body...))
+			default:
+				var str string
+				str, gerr = m.String(in.mt, string(body))
+				got = []byte(str)
+			}
+			cfg := fmt.Sprintf("BOM-prefixed %s via %s", in.name, entry)
+			if (gerr == nil) != (rerr == nil) || (rerr == nil && !bytes.Equal(got, ref.Bytes())) {
+				run.Violation(core.Key(cfg, body), fmt.Sprintf("%s: got %q (%v), the plain call gives %q (%v)", cfg, core.Trunc(string(got), 60), gerr, core.Trunc(ref.String(), 60), rerr), map[string]interface{}{"case": cfg, "input": string(body)})
+			} else {
+				run.NonTrivial([]byte(cfg))
 			}
 		}
 	}
